@@ -147,7 +147,7 @@ func (e *Engine) runReplay(fi *FuncInfo, c *FuncContract, modelCases [][]*CV, se
 			}
 		}()
 		for i, v := range ins {
-			if i == 0 && fi.Sig.Recv() != nil && c != nil && c.Flags["replay"] == "zero-receiver" {
+			if i == 0 && fi.Sig.Recv() != nil && c != nil && zeroReceiver(c) {
 				cs = append(cs, &CV{K: "zero"})
 				continue
 			}
@@ -424,8 +424,22 @@ func (e *Engine) evalClause(n *SNode, env *CEnv) (val bool, evaluable bool) {
 }
 
 // judge returns a description of the contract violation exhibited by the case, or "".
+// zeroReceiver: `//@ replay zero-receiver` replays a method on the zero value of its receiver (for methods that do not
+// touch the keeper before the interesting point). `//@ replay zero-receiver:<substring>` additionally counts a panic
+// only if its message contains the substring: a zero keeper panics with a nil dereference as soon as the store is
+// touched, and that is an artefact of the harness, not a finding.
+func zeroReceiver(c *FuncContract) bool {
+	return c != nil && (c.Flags["replay"] == "zero-receiver" || strings.HasPrefix(c.Flags["replay"], "zero-receiver:"))
+}
+
 func (e *Engine) judge(fi *FuncInfo, c *FuncContract, rc *replayCase) string {
 	if rc.Panic != "" {
+		if c != nil && strings.HasPrefix(c.Flags["replay"], "zero-receiver:") {
+			if strings.Contains(rc.Panic, strings.TrimPrefix(c.Flags["replay"], "zero-receiver:")) {
+				return "panic: " + rc.Panic
+			}
+			return ""
+		}
 		if c != nil && c.Flags["may_panic"] != "" {
 			return ""
 		}
@@ -466,7 +480,7 @@ func (e *Engine) modelCase(fi *FuncInfo, o *Obligation) []*CV {
 		}()
 		c := e.cs.Funcs[fi.Key]
 		for i, v := range ins {
-			if i == 0 && fi.Sig.Recv() != nil && c != nil && c.Flags["replay"] == "zero-receiver" {
+			if i == 0 && fi.Sig.Recv() != nil && c != nil && zeroReceiver(c) {
 				cs = append(cs, &CV{K: "zero"})
 				continue
 			}
